@@ -563,9 +563,13 @@ class _Gen:
         if k == "filter":
             name = self.pick(SS_NEUTRAL if self.neutral else SS_RICH)
             if name == "format":
-                fmt = ["s", self.pick(("%s", "<%s>", "%s&%s", "'%s'", "%(a)s", "%5s|%-3s", "%r", "%d%%", "%s"))] if self.chance(2, 3) else self.lo_s(lex, d - 1)
-                args, kwargs = self.filter_args(lex, name, d - 1)
-                return ["f", "format", fmt, args, [] if not kwargs else [["a", kwargs[0][1]]]]
+                if self.chance(1, 4):
+                    return ["f", "format", ["s", self.pick(("%(a)s", "<%(a)s>&"))], [], [["a", self.lo_s(lex, d - 1)]]]
+                fmts = (("%s", 1), ("<%s>", 1), ("%s&%s", 2), ("'%s'", 1), ("%5s|%-3s", 2), ("%r", 1), ("%s%%", 1), ('"%s"', 1))
+                fmt, n = self.pick(fmts)
+                if self.chance(1, 4):
+                    return ["f", "format", self.lo_s(lex, d - 1), [self.lo_s(lex, 0) for _ in range(self.i(0, 2))], []]
+                return ["f", "format", ["s", fmt], [self.lo_s(lex, d - 1) for _ in range(n)], []]
             args, kwargs = self.filter_args(lex, name, d - 1)
             return ["f", name, self.lo_s(lex, d - 1), args, kwargs]
         if k == "method":
